@@ -194,6 +194,7 @@ def run(prop, judge, tier, seed, t0, cls="monoidal", invariants=(), drift=False,
         # leg 2: replay on the real library
         files, hooks, stats = machine.replay(A, lib, states, work, seed, tag="states")
         files2, hooks2, stats2 = machine.replay(A, lib, chains, work, seed, tag="chains")
+        slowest = max(stats["slowest_call_cpu_s"], stats2["slowest_call_cpu_s"])
         fam_info = None
         if families:
             walks, spmodel = spiral_walks(work, cfgt["spiral_cups"], cfgt["spiral_walks"], cfgt["spiral_depth"], seed)
@@ -202,6 +203,7 @@ def run(prop, judge, tier, seed, t0, cls="monoidal", invariants=(), drift=False,
             fam_info = {"module": "MC_Spiral", "MaxCups": cfgt["spiral_cups"], "states": spmodel["distinct"],
                         "transitions": spmodel["generated"], "walks_replayed": len(walks),
                         "walk_depth": cfgt["spiral_depth"], "calls": stats3["calls"]}
+            slowest = max(slowest, stats3["slowest_call_cpu_s"])
         lap("replay")
         trace_file = os.path.join(work, "trace.ndjson")
         # (the rigid normal form yanks snakes: its results are judged by C07, not as interchanges)
@@ -251,7 +253,8 @@ def run(prop, judge, tier, seed, t0, cls="monoidal", invariants=(), drift=False,
             "replay": {"states_in_model": n_states, "states_replayed": len(states),
                        "histories": n_hist, "calls": n_calls, "calls_by_op": dict(op_count),
                        "refusals_by_exception": dict(exc_count),
-                       "diagrams_constructed": stats["constructed"] + stats2["constructed"]},
+                       "diagrams_constructed": stats["constructed"] + stats2["constructed"],
+                       "slowest_call_cpu_s": slowest, "call_limit_cpu_s": stats["call_limit_cpu_s"]},
             "verdicts_by_clause": dict(clause_count),
             "canary": can, "timings_s": tm,
         }
